@@ -154,7 +154,8 @@ class Ctx:
         idx = len(self.violations)
         path = OUT / "replay" / self.pid / ("%s-seed%d-%d.json" % (self.tier, self.seed, idx))
         rec = {"property": self.pid, "signature": signature, "seed": self.seed, "tier": self.tier, "detail": detail}
-        if idx < 20:
+        nsame = sum(1 for sg, _ in self.violations if sg == signature)
+        if idx < 20 or nsame < 2:
             path.write_text(json.dumps(rec, indent=1))
         self.violations.append((signature, str(path)))
 
